@@ -1,6 +1,6 @@
 // libFuzzer targets for C10 (memory safety / termination) with the C11 "success"
 // and C03 "structural" oracles inside.  One source, the target is selected by
-// -DFUZZ_TARGET=<n>:  1 bool   2 offset   3 rect   4 misc
+// -DFUZZ_TARGET=<n>:  1 bool   2 offset   3 rect   4 misc   5 export (C boundary)
 // Compile-time variants: -DUSINGZ (with -DClipper2Lib=C2Z), -DFUZZ_BIG (magnitudes up to 2^62).
 //
 // VERIF_STATS=<file>: instead of fuzzing semantics only, append one line per
@@ -14,6 +14,9 @@
 
 #include "clipper2/clipper.h"
 #include "clipper2/clipper.minkowski.h"
+#if FUZZ_TARGET == 5
+#include "cexport.hpp"
+#endif
 
 using namespace Clipper2Lib;
 
@@ -302,6 +305,68 @@ void target(FuzzedDataProvider& f) {
       g_nontrivial = !u.empty() || !i.empty();
     }
   }
+}
+#endif
+
+// ---------------------------------------------------------------------------
+#if FUZZ_TARGET == 5
+// every exported function: inputs are heap blocks of exactly the stated length (ASan sees any over-read), every
+// returned array is walked to its stated length by the harness decoder and released with DisposeArray*
+template <class T>
+void walk(T* a, bool tree) {
+  if (!a) return;
+  cx::DecodeInfo di;
+  if (tree) cx::decodeTree(a, di); else cx::decodePaths(a, di);
+  if (!di.ok) violation(di.why);
+  g_nontrivial = g_nontrivial || di.count > 0;
+}
+void target(FuzzedDataProvider& f) {
+  Dec d(f, std::min(kMaxCls, 4));
+  int fn = f.ConsumeIntegralInRange<int>(0, 13);
+  uint8_t ct = f.ConsumeIntegralInRange<uint8_t>(0, 6), fr = f.ConsumeIntegralInRange<uint8_t>(0, 5);
+  bool pc = f.ConsumeBool(), rev = f.ConsumeBool();
+  int prec = f.ConsumeIntegralInRange<int>(-9, 9);
+  uint8_t jt = f.ConsumeIntegralInRange<uint8_t>(0, 3), et = f.ConsumeIntegralInRange<uint8_t>(0, 4);
+  double delta = f.ConsumeFloatingPointInRange<double>(-5000.0, 5000.0);
+  double ml = f.ConsumeFloatingPointInRange<double>(0.0, 10.0), at = f.ConsumeBool() ? 0.0 : f.ConsumeFloatingPointInRange<double>(0.01, 20.0);
+  Paths64 s = d.paths(3, 10), c = d.paths(3, 10), o = d.paths(2, 6);
+  double div = std::pow(10.0, std::max(-8, std::min(8, prec)));
+  // keep the scaled doubles inside the valid coordinate range (out-of-range input is C11's subject, it throws)
+  bool dOk = (double)d.M < 1e15 && (double)d.M * 2.0 < (double)MAX_COORD;
+  auto toD = [&](const Paths64& pp) { PathsD r; for (auto& p : pp) { PathD q; for (auto& v : p) {
+#ifdef USINGZ
+    q.emplace_back(v.x / div, v.y / div, v.z);
+#else
+    q.emplace_back(v.x / div, v.y / div);
+#endif
+  } r.push_back(q); } return r; };
+  int64_t *s64 = cx::encodePaths(s, true), *c64 = cx::encodePaths(c, true), *o64 = cx::encodePaths(o, true);
+  PathsD sd = toD(s), cd = toD(c), od = toD(o);
+  double *sD = cx::encodePaths(sd, true), *cD = cx::encodePaths(cd, true), *oD = cx::encodePaths(od, true);
+  int64_t l = d.coord(), t = d.coord(), r = d.coord(), b = d.coord();
+  CRect64 cr{std::min(l, r), std::min(t, b), std::max(l, r), std::max(t, b)};
+  CRectD crd{cr.left / div, cr.top / div, cr.right / div, cr.bottom / div};
+  switch (fn) {
+    case 0: { int64_t *sol = nullptr, *so = nullptr; int rc = BooleanOp64(ct, fr, s64, o64, c64, sol, so, pc, rev); if (rc == 0) { walk(sol, false); walk(so, false); } else if (sol || so) violation("outputs set on a rejected call"); if (sol) DisposeArray64(sol); if (so) DisposeArray64(so); break; }
+    case 1: { int64_t *sol = nullptr, *so = nullptr; int rc = BooleanOp_PolyTree64(ct, fr, s64, o64, c64, sol, so, pc, rev); if (rc == 0) { walk(sol, true); walk(so, false); } if (sol) DisposeArray64(sol); if (so) DisposeArray64(so); break; }
+    case 2: if (dOk) { double *sol = nullptr, *so = nullptr; int rc = BooleanOpD(ct, fr, sD, oD, cD, sol, so, prec, pc, rev); if (rc == 0) { walk(sol, false); walk(so, false); } if (sol) DisposeArrayD(sol); if (so) DisposeArrayD(so); } break;
+    case 3: if (dOk) { double *sol = nullptr, *so = nullptr; int rc = BooleanOp_PolyTreeD(ct, fr, sD, oD, cD, sol, so, prec, pc, rev); if (rc == 0) { walk(sol, true); walk(so, false); } if (sol) DisposeArrayD(sol); if (so) DisposeArrayD(so); } break;
+    case 4: { int64_t* res = InflatePaths64(s64, delta, jt, et, ml, at, rev); walk(res, false); if (res) DisposeArray64(res); break; }
+    case 5: if (dOk) { double* res = InflatePathsD(sD, delta / div, jt, et, prec, ml, at / div, rev); walk(res, false); if (res) DisposeArrayD(res); } break;
+    case 6: if (!s.empty()) { int64_t* p1 = cx::encodePath(s[0]); int64_t* res = InflatePath64(p1, delta, jt, et, ml, at, rev); walk(res, false); if (res) DisposeArray64(res); delete[] p1; } break;
+    case 7: if (dOk && !sd.empty()) { double* p1 = cx::encodePath(sd[0]); double* res = InflatePathD(p1, delta / div, jt, et, prec, ml, at / div, rev); walk(res, false); if (res) DisposeArrayD(res); delete[] p1; } break;
+    case 8: { int64_t* res = RectClip64(cr, s64); walk(res, false); if (res) DisposeArray64(res); break; }
+    case 9: if (dOk) { double* res = RectClipD(crd, sD, prec); walk(res, false); if (res) DisposeArrayD(res); } break;
+    case 10: { int64_t* res = RectClipLines64(cr, s64); walk(res, false); if (res) DisposeArray64(res); break; }
+    case 11: if (dOk) { double* res = RectClipLinesD(crd, sD, prec); walk(res, false); if (res) DisposeArrayD(res); } break;
+    default: if (!s.empty() && !c.empty()) {
+      int64_t *pa = cx::encodePath(s[0]), *pb = cx::encodePath(c[0]);
+      int64_t* res = fn == 12 ? MinkowskiSum64(pa, pb, pc) : MinkowskiDiff64(pa, pb, pc);
+      walk(res, false); if (res) DisposeArray64(res);
+      delete[] pa; delete[] pb;
+    }
+  }
+  delete[] s64; delete[] c64; delete[] o64; delete[] sD; delete[] cD; delete[] oD;
 }
 #endif
 
